@@ -24,6 +24,19 @@ class WordRec(e7.Recogniser):
         self.F = F
         self.ops_at = {}
         self.tabs = {}
+        # the buffers that receive the character at the cursor and are only ever appended to
+        grown, other = set(), set()
+        for bb, t, ck, fr in f.calls():
+            if not ck or not ck.startswith("std::string::String::") or not t["args"]:
+                continue
+            b = e7.buf_id(cfg.expr_operand(f, t["args"][0], 8))
+            if ck.endswith("::push") and len(t["args"]) > 1:
+                v = cfg.expr_operand(f, t["args"][1], 6)
+                if v[0] == "call" and v[1] and v[1].endswith(("Input::peek", "Input::look_ch")) and b is not None and b[0] == "local":
+                    grown.add(b)
+            elif not ck.endswith(("::push_str", "::reserve", "::is_empty", "::len", "::with_capacity", "::capacity", "::as_str")):
+                other.add(b)
+        self.content_bufs = grown - other
 
     def table(self, method):
         """characters for which the provided body of Input::<method> answers true (folded with peek() = the character)"""
@@ -48,6 +61,8 @@ class WordRec(e7.Recogniser):
             e = e[2]
             tt, ft = ft, tt
         key = ("cur", st.get("epoch", 0))
+        if e[0] == "call" and e[1] == "std::string::String::is_empty" and e7.buf_id(e[2][0]) in self.content_bufs:
+            return (("content-buffer-empty",), [(FALSE, ft)])      # a content character has been pushed: the buffer is not empty
         if e[0] == "call" and e[1] and e[1].startswith(INPUT + "::next_is_") and len(e[2]) == 1:
             try:
                 tab = self.table(e[1].rsplit("::", 1)[1])
@@ -69,6 +84,8 @@ class WordRec(e7.Recogniser):
         if ck in SPACE:
             st["epoch"] = st.get("epoch", 0) + 1
             return ("op", ("space",))
+        if ck.endswith(("ScanError::new_str", "ScanError::new")):
+            return ("op", ("err",))
         if ck.startswith(SCANNER + "::skip") or ck.startswith(INPUT + "::skip") or ck.startswith(INPUT + "::raw_read"):
             st["epoch"] = st.get("epoch", 0) + 1
             return ("op", ("consume?", ck))
@@ -100,5 +117,32 @@ def check(rep, F, rule="comment-test-after-blank"):
                   "after a content character of a plain scalar the test for '#' (comment) can be reached without a blank or line break having been "
                   "consumed: '#' inside a word would end the scalar", site=site(f, f.blocks[cb]["term"]["sp"]),
                   detail={"paths": len(ps), "offending": [{"guards": {str(k): repr(c) for k, c in p["guards"].items() if k[0] == "cur"}, "ops": [str(o) for o in p["ops"]]} for p in bad[:2]]})
-    rep.extra["plain_word"] = {"paths": n, "tests": len(tests), "content_sites": len(starts)}
+    # once a plain scalar has started, indicator characters are content (YAML 1.2.2 7.3.3: only the first character is restricted): no
+    # error may be reached from a content character on a path that pins the character at the cursor to one indicator
+    IND = set(map(ord, "-?:,[]{}#&*!|>'\"%@`"))
+    work = [start for cb, start in starts]
+    done_starts = set()
+    offending = []
+    npaths = 0
+    while work:
+        st0 = work.pop()
+        if st0 in done_starts:
+            continue
+        done_starts.add(st0)
+        ps = e7.paths(f, st0, rec, stop_at={c for c, _ in starts}, limit=40000)
+        npaths += len(ps)
+        for p in ps:
+            if p["why"] == "back-edge" and p["end"] is not None and any(o[0] in ("space", "consume?") for o in p["ops"]):
+                work.append(p["end"])      # go on from the loop head with what was learnt about earlier characters forgotten
+            if not any(o == ("err",) for o in p["ops"]):
+                continue
+            last = max([k_[1] for k_ in p["guards"] if k_[0] == "cur"], default=None)
+            pinned = [c for k_, c in p["guards"].items() if k_[0] == "cur" and k_[1] == last and c.pos is not None and len(c.pos) == 1 and set(c.pos) <= IND]
+            if pinned:
+                offending.append((st0, pinned))
+    rep.check(not offending, "indicator-error-after-content", "scan_plain_scalar",
+              "after a content character of a plain scalar an error is raised because the character at the cursor is the indicator %s: inside a plain scalar "
+              "indicators are ordinary text (only its first character is restricted)" % ", ".join(sorted({repr(chr(next(iter(c.pos)))) for _, cs in offending for c in cs})),
+              site=f.span, detail={"paths": npaths, "offending": len(offending), "segments_started_at": sorted(done_starts)})
+    rep.extra["plain_word"] = {"paths": n, "tests": len(tests), "content_sites": len(starts), "content_buffers": [e7.buf_name(f, b) for b in rec.content_bufs]}
     return n
